@@ -743,3 +743,55 @@ def rule_subpatterns(rep, crate):
                 rep.viol(ra, 'subpatterns-new:order', 'the subpattern is inserted into the table without its references having been substituted first', loc(fn, it['line']))
             if subl not in fn.slice(it['args'][2], through_calls=False).locals:
                 rep.viol(ra, 'subpatterns-new:inserted', 'the inserted value is not the substituted subpattern', loc(fn, it['line']))
+
+
+ESCAPE_CALLEES = re.compile(r'^(std::string::String::new|syn::LitStr::value|syn::LitByteStr::value|<std::string::String as std::ops::Deref>::deref|regex_syntax::escape|regex_syntax::escape_into'
+                            r'|<std::vec::Vec<T, A> as std::iter::IntoIterator>::into_iter|<std::vec::IntoIter<T, A> as std::iter::Iterator>::next|std::str::from_utf8|core::str::from_utf8'
+                            r'|std::result::Result::<T, E>::expect|core::fmt::rt::Argument::<\'_>::new_display|core::fmt::rt::Argument::<\'_>::new_upper_hex|std::fmt::Arguments::<\'a>::new'
+                            r'|std::fmt::Write::write_fmt|<std::string::String as std::fmt::Write>::write_fmt|<.* as std::ops::Deref(Mut)?>::deref(_mut)?)$')
+
+
+def rule_literal_escape(rep, crate):
+    rid = rep.rule('M-C10c', 'Literal::escape delegates every metacharacter escape to regex_syntax::escape / escape_into (str literal: the whole value; byte literal: each ASCII byte), writes non-ASCII bytes as \\xNN, and does nothing else to the text; with literal=false a str literal is returned unchanged', floor=1)
+    fn = crate.fns.get('parser::definition::Literal::escape')
+    if not rep.anchor(rid, 'fn Literal::escape', fn is not None):
+        return
+    names = sorted({fn.callee_name(t) for _b, t in fn.calls()})
+    rep.inst(rid, 'Literal::escape', detail=[short(n) for n in names])
+    for n in names:
+        if not ESCAPE_CALLEES.search(n):
+            rep.viol(rid, 'escape:callee:%s' % re.sub(r'<[^<>]*>', '', n), 'Literal::escape calls %s, which is not part of its audited shape (hand-written escaping or text transformation)' % n, loc(fn))
+    esc = find_calls(fn, r'^regex_syntax::escape$')
+    esci = find_calls(fn, r'^regex_syntax::escape_into$')
+    if len(esc) != 1 or len(esci) != 1:
+        rep.viol(rid, 'escape:delegation', 'expected one regex_syntax::escape (str literals) and one escape_into (byte literals) call', loc(fn))
+        return
+    # str arm: escape(&lit.value()) on the `literal` edge, value() otherwise
+    d = desc(fn, esc[0][1]['args'][0])
+    if not re.fullmatch(r'call:<std::string::String as std::ops::Deref>::deref\(call:syn::LitStr::value\(.*\)\)', d):
+        rep.viol(rid, 'escape:str-arg', 'regex_syntax::escape is applied to %s, expected the str literal\'s value' % d, loc(fn, esc[0][1]['line']))
+    guard = [c for c in (cond_of_switch(fn, sb) for sb in switches(fn)) if c and c['root'][0] == 'param' and c['root'][1] == 2]
+    if not any(fn.edge_dominates((c['bb'], c['t']), esc[0][0]) for c in guard) or not any(fn.edge_dominates((c['bb'], c['t']), esci[0][0]) for c in guard):
+        rep.viol(rid, 'escape:edge', 'escaping is not confined to the literal=true edge', loc(fn))
+    # the ASCII test: byte <= 127
+    lims = set()
+    for bi, si, st in fn.stmts():
+        rhs = st['rhs']
+        if rhs['rv'] == 'bin' and rhs['bop'] in ('Le', 'Lt', 'Ge', 'Gt') and not st.get('macro'):
+            for key in ('a', 'b'):
+                c = const_int(rhs[key])
+                if c is not None:
+                    lims.add((rhs['bop'], c))
+    rep.inst(rid, 'Literal::escape:ascii-test', detail=sorted(lims))
+    if not (lims & {('Le', 127), ('Lt', 128), ('Ge', 127), ('Gt', 128)}):
+        rep.viol(rid, 'escape:ascii-test', 'the ASCII test of the byte arm is %s, expected byte <= 127' % sorted(lims), loc(fn))
+    # non-ASCII bytes: "\x" + upper hex
+    hexs = find_calls(fn, r'Argument::<.*>::new_upper_hex$')
+    tpls = []
+    for b, t in find_calls(fn, r'fmt::Arguments::<.*>::new$'):
+        r = trace(fn, t['args'][0])
+        if r[0] == 'const' and const_bytes(r[1]) is not None:
+            tpls.append(const_bytes(r[1]))
+    rep.inst(rid, 'Literal::escape:templates', detail=[repr(x) for x in tpls])
+    if not hexs or not any(x.startswith(b'\x02\\x') for x in tpls):
+        rep.viol(rid, 'escape:hex', 'non-ASCII bytes are not written as \\xNN', loc(fn))
